@@ -224,3 +224,13 @@ UNITS += [
 # _check_type never hands the action's own default object to the adaptation as the previous value (which the class-change handling edits in place)
 from contracts.check_type import check_type_unit  # noqa: E402
 UNITS.append(check_type_unit("C08"))
+
+# the parse methods never hand the caller's namespace / object to a callee that writes into its argument (argparse, _apply_actions)
+UNITS += [_dc.replace(u, prop="C08") for u in _C04_UNITS if u.target.endswith(("ArgumentParser.parse_args", "ArgumentParser.parse_object")) and not u.label]
+
+# the dataclass arm does not write into the action it is called for (its sub_add_kwargs hold the declared defaults of the nested fields)
+from contracts.adapt_arms import dataclass_unit as _dataclass_unit  # noqa: E402
+UNITS.append(_dataclass_unit("C08"))
+
+from contracts.share import carried as _carried  # noqa: E402
+UNITS += _carried("C08")
